@@ -62,6 +62,15 @@ pub fn shared(prop: &'static str, seed: u64) -> Vec<Scenario> {
     add(Tier::Quick, format!("depwd.{}", p.clone().native().tag()), d_depwd, 400, 120, Box::new(t_depwd(pc.clone().native())));
     add(Tier::Quick, format!("fund.close.{}", p.tag()), d_fund, 400, 150, Box::new(t_fund(pc.clone(), 0)));
     add(Tier::Quick, format!("fund.close.{}", P::new(prop, Sell, seed).tag()), d_fund, 400, 150, Box::new(t_fund(P::new(prop, Sell, seed).concrete_prefix(), 0)));
+    // native collateral with a symbolic amount of coins attached to the messages that need none
+    let d_att = "native collateral; a symbolic amount of collateral coins is attached to ClosePosition / Liquidate / PayFunding / WithdrawMargin (messages that need none)";
+    let pa = pc.clone().native().attached();
+    add(Tier::Quick, format!("fund.close.{}", pa.tag()), d_att, 400, 150, Box::new(t_fund(pa.clone(), 0)));
+    add(Tier::Quick, format!("fund.withdraw.{}", pa.tag()), d_att, 400, 150, Box::new(t_fund(pa.clone(), 1)));
+    add(Tier::Quick, format!("liq.shallow.{}", pa.clone().partial().tag()), d_att, 400, 150, Box::new(t_liq(pa.clone().partial(), 5)));
+    add(Tier::Quick, format!("depwd.{}", pa.clone().sym_funds().tag()), d_att, 400, 120, Box::new(t_depwd(pa.clone().sym_funds())));
+    add(Tier::Thorough, format!("liq.deep.{}", pa.tag()), d_att, 400, 150, Box::new(t_liq(pa.clone(), 45)));
+    add(Tier::Thorough, format!("fund.liq.{}", pa.tag()), d_att, 400, 300, Box::new(t_fund(pa.clone(), 4)));
     v
 }
 
@@ -83,6 +92,7 @@ pub fn fees(seed: u64) -> Vec<Scenario> {
         add(Tier::Quick, format!("close.against.{}", p.tag()), d, 400, 150, Box::new(t_close(pc.clone(), false)));
         add(Tier::Quick, format!("close.with.{}", p.tag()), d, 400, 150, Box::new(t_close(pc.clone(), true)));
         add(Tier::Quick, format!("liq.shallow.{}", p.tag()), d, 400, 150, Box::new(t_liq(pc.clone(), 5)));
+        add(Tier::Quick, format!("dep-close.{}", p.tag()), d, 400, 150, Box::new(t_dep_close(pc.clone(), 45)));
         add(Tier::Thorough, format!("opp.{}", p.clone().lev().tag()), d, 1500, 600, Box::new(t_open2(pc.clone().lev(), false)));
         add(Tier::Thorough, format!("opp.sym.{}", p.tag()), d, 1500, 600, Box::new(t_open2(p.clone(), false)));
         add(Tier::Thorough, format!("open.{}", p.clone().wide().lev().tag()), d, 2000, 600, Box::new(t_open(p.clone().wide().lev())));
@@ -122,6 +132,8 @@ pub fn c04(seed: u64) -> Vec<Scenario> {
             add(Tier::Quick, format!("close10x.{}.{}", rn, p.tag()), d, 400, 150, Box::new(t_close_regime(pc.clone(), ru)));
         }
         add(Tier::Quick, format!("close10x.zero-equity.{}", p.clone().fees().tag()), d, 400, 150, Box::new(t_close_regime(pc.clone().fees(), 7)));
+        add(Tier::Quick, format!("dep-close.{}", p.clone().fees().tag()), d, 400, 150, Box::new(t_dep_close(pc.clone().fees(), 45)));
+        add(Tier::Quick, format!("dep-close.{}", p.clone().native().tag()), d, 400, 150, Box::new(t_dep_close(pc.clone().native(), 45)));
         add(Tier::Quick, format!("opp.{}", p.tag()), d, 600, 150, Box::new(t_open2(pc.clone(), false)));
         add(Tier::Quick, format!("depwd.{}", p.tag()), d, 400, 120, Box::new(t_depwd(pc.clone())));
         add(Tier::Quick, format!("close.against.{}", p.clone().native().tag()), d, 400, 150, Box::new(t_close(pc.clone().native(), false)));
@@ -160,6 +172,8 @@ pub fn c05(seed: u64) -> Vec<Scenario> {
     }
     let p = P::new(prop, Buy, seed);
     add(Tier::Quick, format!("depwd.{}", p.clone().native().tag()), d, 400, 120, Box::new(t_depwd(p.clone().concrete_prefix().native())));
+    add(Tier::Quick, format!("depwd.{}", p.clone().native().sym_funds().tag()), d, 400, 120, Box::new(t_depwd(p.clone().concrete_prefix().native().sym_funds())));
+    add(Tier::Quick, format!("depwd.{}", P::new(prop, Sell, seed).native().sym_funds().attached().tag()), d, 400, 120, Box::new(t_depwd(P::new(prop, Sell, seed).concrete_prefix().native().sym_funds().attached())));
     add(Tier::Quick, format!("open.{}", p.clone().lev().fees().tag()), d, 800, 150, Box::new(t_open(p.clone().lev().fees())));
     v
 }
@@ -192,6 +206,18 @@ pub fn liq(prop: &'static str, seed: u64) -> Vec<Scenario> {
         add(Tier::Quick, format!("liq2.{}", pc.tag()), d, 600, 150, Box::new(t_liq2(pc.clone(), false)));
         add(Tier::Quick, format!("liq2.sameblock.{}", pc.tag()), d, 600, 150, Box::new(t_liq2(pc.clone(), true)));
         add(Tier::Quick, format!("two-same-block.{}", pc.tag()), d, 600, 150, Box::new(t_liq_two_same_block(pc.clone())));
+        let d_band = "alice 10x under water (shallow / deep); a per-block price band with a symbolic limit; in the liquidation block another trader first moves the price (either way), then a third party liquidates, and again in the next block";
+        for (rn, ru) in [("shallow", 5u128), ("deep", 45)] {
+            add(Tier::Quick, format!("band.{}.mover-with.{}", rn, pc.tag()), d_band, 600, 150, Box::new(t_liq_band(pc.clone(), true, ru, false)));
+            add(Tier::Quick, format!("band.{}.mover-against.{}", rn, pc.tag()), d_band, 600, 150, Box::new(t_liq_band(pc.clone(), false, ru, false)));
+        }
+        add(Tier::Quick, format!("band.deep.mover-with.{}", pc.clone().partial().tag()), d_band, 600, 150, Box::new(t_liq_band(pc.clone().partial(), true, 45, false)));
+        add(Tier::Thorough, format!("band.deep.mover-with.{}", pc.clone().counter().tag()), d_band, 600, 150, Box::new(t_liq_band(pc.clone().counter(), true, 45, false)));
+        add(Tier::Thorough, format!("band.deep.mover-against.{}", pc.clone().counter().tag()), d_band, 600, 150, Box::new(t_liq_band(pc.clone().counter(), false, 45, false)));
+        for (rn, ru) in [("shallow", 5u128), ("deep", 45)] {
+            add(Tier::Quick, format!("band.cheap-pool.{}.mover-with.{}", rn, pc.tag()), d_band, 600, 150, Box::new(t_liq_band(pc.clone(), true, ru, true)));
+            add(Tier::Quick, format!("band.cheap-pool.{}.mover-against.{}", rn, pc.tag()), d_band, 600, 150, Box::new(t_liq_band(pc.clone(), false, ru, true)));
+        }
         add(Tier::Quick, format!("prepaid-bad-debt.{}", pc.tag()), d, 600, 150, Box::new(t_liq_prepaid(pc.clone())));
         add(Tier::Quick, format!("prepaid-bad-debt.{}", pc.clone().native().tag()), d, 600, 150, Box::new(t_liq_prepaid(pc.clone().native())));
         add(Tier::Quick, format!("shallow.{}", pc.clone().real_feed().tag()), d, 600, 150, Box::new(t_liq(pc.clone().real_feed(), 5)));
